@@ -216,7 +216,7 @@ def repeatEach (k : Nat) (l : List α) : List α := l.flatMap (List.replicate k)
 abbrev KeyState (α : Type) := Option (Cls × List α)
 
 /-- `_get_changed_class(key, new_class, slice_dim)` on one key (F4 repaired: only constants are
-    wrapped).  `sliceLen` is `shape[slice_dim]`, used when the multiplicity is 0. -/
+    wrapped; F29 repaired: full per-slice multiplicity when the extension has no slice dimension). -/
 def getChangedK (null : α) (sh : Shp) (ks : KeyState α) (new : Cls) : Except Err (List α) :=
   let curr := ks.map (·.1)
   if curr = some new then .ok (ks.map (·.2) |>.getD [])
@@ -226,7 +226,9 @@ def getChangedK (null : α) (sh : Shp) (ks : KeyState α) (new : Cls) : Except E
     let perSl := match curr with | none => false | some c => perSlice c
     let values := match ks with | none => [null] | some (_, v) => v
     let newMult0 := if new ∈ validClasses sh then mult sh new else 1
-    let newMult := if newMult0 = 0 then sh.S else newMult0
+    -- multiplicity 0 means the extension has no slice dimension: the caller's is used (F29
+    -- repaired: with the time / vector factors of the class, as in `get_multiplicity`)
+    let newMult := if newMult0 = 0 then mult { sh with hasSlice := true } new else newMult0
     let fact := newMult / currMult
     let result := if perSl then tile fact values else repeatEach fact values
     .ok (if new = gconst then (result.head?).toList else result)
